@@ -900,6 +900,143 @@ def _run_standalone_case(case: dict) -> Outcome:
 
 
 # ----------------------------------------------------------------------------------------------
+# layer "restart-race": stop a standalone server and serve again at once from another thread, while generated delays are
+# injected at the acquisitions of the server's own locks (the locks are created through the module global `threading` of
+# lowlevel/_lock.py, which the harness replaces for the construction of the server) so that the windows between "the
+# stopped event is set", "the locks are re-taken" and "the portal/server references are reset" are actually crossed.
+
+
+class _DelayingRLock:
+    def __init__(self, delays: dict[int, float], counter: list[int]) -> None:
+        import threading as _t
+
+        self._lock = _t.RLock()
+        self._delays = delays
+        self._counter = counter
+
+    def acquire(self, blocking: bool = True, timeout: float = -1) -> bool:
+        i = self._counter[0]
+        self._counter[0] += 1
+        d = self._delays.get(i)
+        if d:
+            time.sleep(d)
+        return self._lock.acquire(blocking, timeout)
+
+    def release(self) -> None:
+        self._lock.release()
+
+    def __enter__(self) -> bool:
+        return self.acquire()
+
+    def __exit__(self, *a: Any) -> None:
+        self.release()
+
+
+@st.composite
+def st_restart_case(draw: st.DrawFn, tier: str) -> dict:
+    n = draw(st.integers(1, 3))
+    idx = draw(st.lists(st.integers(0, 24), min_size=n, max_size=n, unique=True))
+    return {
+        "proto": draw(st.sampled_from(["tcp", "tcp", "udp"])),
+        "lock_delays": {str(i): draw(st.sampled_from([0.05, 0.15, 0.4])) for i in idx},
+        "restart_gap_ms": draw(st.sampled_from([0, 0, 1, 5])),
+        "rounds": draw(st.integers(1, 2)),
+    }
+
+
+def run_restart_case(case: dict) -> Outcome:
+    import threading as _threading
+    import types as _types
+
+    import easynetwork.lowlevel._lock as lock_mod
+
+    logging.disable(logging.CRITICAL)
+    WATCH = 20.0
+    counter = [0]
+    delays = {int(k): float(v) for k, v in case["lock_delays"].items()}
+    real = lock_mod.threading
+    ns = _types.SimpleNamespace(**{k: getattr(real, k) for k in dir(real) if not k.startswith("__")})
+    ns.RLock = lambda: _DelayingRLock(delays, counter)
+    lock_mod.threading = ns  # type: ignore[assignment]
+    try:
+        srv = _make_standalone_server({"proto": case["proto"], "service_init_ms": 0, "slow_loop_factory_ms": 0}, lambda s: None)
+    finally:
+        lock_mod.threading = real
+    threads: list[Any] = []
+    errors: list[str] = []
+    try:
+
+        def serve(up: Any, box: dict) -> None:
+            try:
+                srv.serve_forever(is_up_event=up)
+                box["end"] = "returned"
+            except BaseException as exc:  # noqa: BLE001
+                box["end"] = f"{type(exc).__name__}: {exc}"
+
+        def start() -> tuple[Any, Any, dict]:
+            up = _threading.Event()
+            box: dict = {}
+            t = _threading.Thread(target=serve, args=(up, box), daemon=True)
+            t.start()
+            threads.append(t)
+            return t, up, box
+
+        t, up, box = start()
+        if not up.wait(WATCH):
+            raise Inconclusive("first serve_forever did not come up within the watchdog")
+        for rnd in range(case["rounds"]):
+            stopper = _threading.Thread(target=srv.shutdown, daemon=True)
+            stopper.start()
+            stopper.join(WATCH)
+            if stopper.is_alive():
+                raise Violation("hang", f"round {rnd}: shutdown() did not return within {WATCH}s", proto=case["proto"], layer_shape="restart-race")
+            # shutdown returned: serving has fully stopped, so the server can serve again at once
+            if case["restart_gap_ms"]:
+                time.sleep(case["restart_gap_ms"] / 1000)
+            t2, up2, box2 = start()
+            if not up2.wait(WATCH):
+                if box2.get("end"):
+                    raise Violation(
+                        "restart-refused", f"round {rnd}: serve_forever() right after shutdown() returned ended with {box2['end']}", proto=case["proto"], layer_shape="restart-race"
+                    )
+                raise Violation("hang", f"round {rnd}: restarted serve_forever() never came up", proto=case["proto"], layer_shape="restart-race")
+            t.join(WATCH)
+            if t.is_alive():
+                raise Violation("hang", f"round {rnd}: the stopped serve_forever() thread never returned", proto=case["proto"], layer_shape="restart-race")
+            # let the old thread finish unwinding, then the restarted server must still be under control
+            time.sleep(0.05 + max(delays.values(), default=0))
+            if not srv.is_serving():
+                raise Violation(
+                    "restarted-server-lost",
+                    f"round {rnd}: serve_forever() came up after shutdown() returned, but is_serving() is False afterwards (old thread: {box.get('end')})",
+                    proto=case["proto"],
+                    layer_shape="restart-race",
+                )
+            t, up, box = t2, up2, box2
+        stopper = _threading.Thread(target=srv.shutdown, daemon=True)
+        stopper.start()
+        stopper.join(WATCH)
+        t.join(WATCH)
+        if stopper.is_alive() or t.is_alive():
+            raise Violation("hang", "final shutdown() does not stop the restarted server", proto=case["proto"], layer_shape="restart-race")
+        if srv.is_serving():
+            raise Violation("still-serving", "is_serving() is True after the final shutdown()", proto=case["proto"], layer_shape="restart-race")
+        return Outcome(nontrivial=True, classes=(case["proto"], f"rounds-{case['rounds']}", f"delays-{len(delays)}"))
+    finally:
+        try:
+            closer = _threading.Thread(target=srv.server_close, daemon=True)
+            closer.start()
+            closer.join(5)
+            killer = _threading.Thread(target=srv.shutdown, daemon=True)
+            killer.start()
+            killer.join(5)
+        except Exception:  # noqa: BLE001
+            pass
+        for th in threads:
+            th.join(2)
+
+
+# ----------------------------------------------------------------------------------------------
 
 CHECK = Check(
     id="C18",
@@ -915,10 +1052,12 @@ CHECK = Check(
     layers=[
         Layer("async", st_async_case, run_async_case, {"quick": 3000, "thorough": 20000}),
         Layer("standalone", st_standalone_case, run_standalone_case, {"quick": 40, "thorough": 200}, case_timeout_s=400.0),
+        Layer("restart-race", st_restart_case, run_restart_case, {"quick": 40, "thorough": 80}, case_timeout_s=400.0, shards=8),
     ],
     assumptions=[
         "async layer: listeners are in-memory objects handed out by a backend subclass; everything above them (server, task groups, cancel scopes, locks) is the unmodified library on the real asyncio backend, on a virtual clock",
         "standalone layer: real threads; the interleaving is not owned by the harness, the oracle only uses interval-order invariants that hold under every interleaving; a hang counts only if it reproduces in three consecutive runs, otherwise the case is inconclusive",
+        "restart-race layer: the standalone server's own RLocks are replaced (through the module global `threading` of lowlevel/_lock.py, during construction only) by locks that sleep at generated acquisition indices; real threads, wall-clock watchdog of 20 s per step",
         "'shutdown returns only after serving stopped' is judged on exact stamps in the async layer and on an is_serving() sample taken by the shutdown caller in the standalone layer",
         "a serve_forever that overlaps another serve_forever and starts after a completed server_close may be refused with ServerAlreadyRunning or ServerClosedError",
     ],
